@@ -394,6 +394,12 @@ def ob_kraus_from_hs(sys, vname, nzero):
         for k, K in enumerate(ks):
             # sorted by decreasing eigenvalue: Tr(K_k† K_k) = k-th largest eigenvalue
             out.append(Eq(f"Tr(K_{k}† K_{k}) == w_(n-1-{k})", refs.tr(refs.mm(refs.dag(K), K)), w[n - 1 - k], 1e-7))
+        # the atol argument is the tolerance of the CP test only: a loose value (as a gate with a loose eps_proj_physical passes) must not
+        # drop Kraus operators whose weight lies between the global zero threshold and that tolerance
+        ks2 = G.to_kraus_matrices_from_hs(c, hs, atol=1e-2)
+        out.append(Holds("loose CP tolerance: still one Kraus operator per non-zero eigenvalue", len(ks2) == n - nzero))
+        back2 = refs.ref_hs_from_kraus(ks2, B) if len(ks2) else np.zeros((n, n))
+        out.append(Eq("loose CP tolerance: sum_k Tr(B_a† K B_b K†) == hs", back2, hs, 1e-7))
         return out
     return FnOb([(k, "real", 1e-6, 10.0) for k in names], run, assume=assume, expect_nonlinear=True,
                 stubs=["np.linalg.eigh/eigvalsh: spectral parametrisation, frame " + vname], max_paths=50,
